@@ -2,6 +2,7 @@
 package main
 
 import (
+	"encoding/json"
 	"flag"
 	"fmt"
 	"os"
@@ -22,7 +23,27 @@ func main() {
 	verif := flag.String("verif", "", "verif directory (default: parent of the binary's directory)")
 	replay := flag.String("replay", "", "replay file: re-run the property and tier recorded in it")
 	dump := flag.String("dump", "", "debug: dump roles|stores:<func>")
+	list := flag.Bool("list", false, "print the registered properties as JSON")
 	flag.Parse()
+	if *list {
+		type entry struct {
+			ID, Level, Explanation string
+			TrustedBase           []string
+			Rules                 []string
+		}
+		var out []entry
+		for id, p := range rules.Properties {
+			e := entry{ID: id, Level: p.Level, Explanation: p.Explanation, TrustedBase: p.TrustedBase}
+			for _, r := range p.Rules {
+				e.Rules = append(e.Rules, r.ID)
+			}
+			out = append(out, e)
+		}
+		sort.Slice(out, func(i, j int) bool { return out[i].ID < out[j].ID })
+		b, _ := json.MarshalIndent(out, "", " ")
+		fmt.Println(string(b))
+		return
+	}
 
 	if *repo != "" {
 		os.Setenv("ARK_REPO", *repo)
